@@ -1,10 +1,12 @@
 #!/bin/sh
-# Run once after a fresh restore (offline): prepare lock files and pre-build the harness binaries.
+# Run once after a fresh restore (offline): prepare lock files and pre-build every harness binary,
+# one cargo invocation per package (features must not be unified across packages: conc_seq vs conc_shim).
 set -e
 cd "$(dirname "$0")/.."
 export CARGO_NET_OFFLINE=true
-for ws in harness harness_real; do
-  if [ -d "$ws" ] && [ ! -f "$ws/Cargo.lock" ]; then cp /repo/Cargo.lock "$ws/Cargo.lock"; fi
-done
+if [ ! -f harness/Cargo.lock ]; then cp /repo/Cargo.lock harness/Cargo.lock; fi
 cd harness
-cargo build --offline --profile chk --workspace 2>&1 | tail -3
+for spec in fields:chk serial:chk serial:chkdbg hashes:chk merkle:chk polyfft:chk airdom:chk frichk:chk stark:chk stark:chkdbg conc_seq:chk conc_shim:chk; do
+  pkg=${spec%%:*}; prof=${spec##*:}
+  cargo build --offline --profile "$prof" -p "$pkg" 2>&1 | tail -1
+done
